@@ -1320,8 +1320,10 @@ def gen_conv_cases(seed, tier, consts, loc):
         add('mbstowcs_s', [('R', ret8), ('R', mb(s) + b'\0')], [(0, 0), None, 0, (1, 0), nc + 1, UNK], op='mbstowcs', chars=s, dmax=0, len=nc + 1, kind='query', valid=True)
         # wcstombs_s
         wsrc = fam_copy.enc(s + [0], 4)
-        for dmax in sorted(set([1, nb, nb + 1, nb + 4]) - {0}):
-            for ln in sorted(set([0, max(nb - 1, 0), nb, nb + 1])):
+        # (dmax also strictly inside the last / the first multibyte character, with len beyond it: a conversion cut at dmax
+        #  stops in front of the character that straddles the boundary -- that is "no room", not a shorter success)
+        for dmax in sorted(set(x for x in (1, 2, nb - 2, nb - 1, nb, nb + 1, nb + 4) if x >= 1)):
+            for ln in sorted(set([0, max(nb - 1, 0), nb, nb + 1, nb + 4])):
                 add('wcstombs_s', [('R', ret8), ('R', fam_copy.garbage(rng, max(dmax, ln, 1))), ('R', wsrc)], [(0, 0), (1, 0), dmax, (2, 0), ln, UNK],
                     op='wcstombs', chars=s, dmax=dmax, len=ln, kind='len>dmax' if ln > dmax else 'ok', valid=True, objelems=max(dmax, ln, 1))
         add('wcstombs_s', [('R', ret8), ('R', wsrc)], [(0, 0), None, 64, (1, 0), nb + 1, UNK], op='wcstombs', chars=s, dmax=64, len=nb + 1, kind='query', valid=True)
@@ -1349,7 +1351,7 @@ def gen_conv_cases(seed, tier, consts, loc):
                 n[0] += 1; cs.append(vlib.Case('v%d' % n[0], 'mbsrtowcs_s', [('R', ret8), ('R', fam_copy.garbage(rng, 4 * dmax)), ('R', src), ('R', pp), ('R', b'\0' * 8)],
                     [(0, 0), (1, 0), dmax, (3, 0), ln, (4, 0), UNK], dict(cls='conv', func='mbsrtowcs_s', loc=loc, op='mbsrtowcs', chars=s, dmax=dmax, len=ln, kind='len>dmax' if ln > dmax else 'ok', valid=True, objelems=dmax)))
         wsrc = fam_copy.enc(s + [0], 4)
-        for dmax in sorted(set([1, nb, nb + 1, nb + 4]) - {0}):
+        for dmax in sorted(set(x for x in (1, 2, nb - 2, nb - 1, nb, nb + 1, nb + 4) if x >= 1)):
             for ln in sorted(set([max(nb - 1, 0), nb, nb + 1, nb + 6])):
                 pp = block_addr(2, 'R', len(wsrc)).to_bytes(8, 'little')
                 n[0] += 1; cs.append(vlib.Case('v%d' % n[0], 'wcsrtombs_s', [('R', ret8), ('R', fam_copy.garbage(rng, dmax)), ('R', wsrc), ('R', pp), ('R', b'\0' * 8)],
